@@ -22,6 +22,8 @@ type c19decl struct {
 	field      bool // function value of a table-constructor field (T = { k = function ... })
 	deep       bool // local function declared below the top level
 	inGlobalFn bool // ... inside the body of a global function or of a function member of a global table
+	viaG       bool // global declared as a member of _G
+	gMember    bool // function field of a table declared as `_G.t = { ... }`
 }
 
 func c19collect(b *ast.Block, depth int, localNames map[string]bool, out *[]c19decl) {
@@ -82,6 +84,32 @@ func c19collect(b *ast.Block, depth int, localNames map[string]bool, out *[]c19d
 						*out = append(*out, c19decl{full: x.Name, short: x.Name, loc: x.Loc, fn: isFn})
 					}
 				case *ast.TableAccessExp:
+					if pn, okp := x.PrefixExp.(*ast.NameExp); okp && pn.Name == "_G" && !localNames["_G"] {
+						// `_G.name = value` / `function _G.name() end` declares the global `name`
+						if key, okk := x.KeyExp.(*ast.StringExp); okk {
+							isFn := false
+							if i < len(st.ExpList) {
+								_, isFn = st.ExpList[i].(*ast.FuncDefExp)
+								if tc, ok := st.ExpList[i].(*ast.TableConstructorExp); ok {
+									n0 := len(*out)
+									c19fields(key.Str, tc, false, false, out)
+									for k := n0; k < len(*out); k++ {
+										(*out)[k].viaG, (*out)[k].gMember = true, true
+									}
+								}
+							}
+							seen := false
+							for _, d := range *out {
+								if d.full == key.Str && !d.local {
+									seen = true
+								}
+							}
+							if !seen {
+								*out = append(*out, c19decl{full: key.Str, short: key.Str, loc: key.Loc, fn: isFn, viaG: true, field: isFn && x.Loc.StartColumn >= 0 && c19isValueFn(st, i)})
+							}
+						}
+						continue
+					}
 					if i < len(st.ExpList) {
 						if fd, ok := st.ExpList[i].(*ast.FuncDefExp); ok {
 							if pn, ok2 := x.PrefixExp.(*ast.NameExp); ok2 {
@@ -180,6 +208,20 @@ func c19fields(owner string, tc *ast.TableConstructorExp, local bool, inBlock bo
 	}
 }
 
+// c19isValueFn: the i-th value of the assignment is a function expression written as a value
+// (`_G.h = function ... end`), as opposed to the statement form `function _G.h() ... end`.
+func c19isValueFn(st *ast.AssignStat, i int) bool {
+	if i >= len(st.ExpList) {
+		return false
+	}
+	fd, ok := st.ExpList[i].(*ast.FuncDefExp)
+	if !ok {
+		return false
+	}
+	v := common.GetExpLoc(st.VarList[i])
+	return fd.Loc.StartLine > v.EndLine || (fd.Loc.StartLine == v.EndLine && fd.Loc.StartColumn >= v.EndColumn)
+}
+
 func c19strip(n string) string {
 	for i := 0; i < len(n); i++ {
 		if n[i] == '(' {
@@ -244,6 +286,8 @@ var c19templates = []string{
 	/* 11 */ "local \x01a <const> = 3\nlocal \x02h <close> = nil\nlocal \x03k <const>, \x04m <const> = 1, 2\nlocal \x05e <const> = function(err) end\nlocal \x06t <const> = { n = 1 }\n",
 	// a forward-declared local that is later assigned a table of functions (dispatch table)
 	/* 12 */ "local \x01c\nlocal function dsp(n) return \x01c[n] end\n\x01c = { \x02s = function(p) end, \x03t = function() end }\nlocal \x04e, \x05f\n\x05f = { \x06u = function() end }\n",
+	// globals declared through _G
+	/* 13 */ "_G.\x01v = 1\nfunction _G.\x02f(a) end\n_G.\x03t = { \x04k = function() end }\n_G.\x05h = function() end\nlocal z = \x01v\n",
 }
 
 func VerifRun_C19() {
@@ -304,6 +348,9 @@ func VerifRun_C19() {
 		}
 		if d.deep {
 			class = "C19-nested-function-outline"
+		}
+		if d.gMember {
+			class = "C19-G-table-members"
 		}
 		if edited || verifParamOr("EDITED", 0) == 2 {
 			// a member written before the statement that declares its (global) table
@@ -387,6 +434,9 @@ func VerifRun_C19ws() {
 		if d.inGlobalFn {
 			class = "C19-local-function-in-global-function"
 		}
+		if d.gMember {
+			class = "C19-G-table-members"
+		}
 		verifReach("query")
 		for _, q := range []string{d.full, d.short} {
 			got := p.FindWorkspaceAllSymbol(q)
@@ -397,6 +447,7 @@ func VerifRun_C19ws() {
 				}
 			}
 			if !ok {
+				verifObserve("query", q)
 				verifViolation(class, "a workspace-symbol query for the exact name of a declared global or function returns no entry located at its declaration")
 				break
 			}
